@@ -62,7 +62,7 @@ def gen_case(rng, tier, k):
     prefix = []
     if st in ("bfs", "dfs", "min", "aseeds") and rng.random() < 0.5:
         prefix = gen_ops(rng, rng.randint(1, 4), allow_skip=False, allow_unmodelled=False)
-    return {"bnet": bnet, "max_motifs": 100000, "strategy": st, "ops": prefix + strat_ops(rng, st), "check": False,
+    return {"bnet": bnet, "max_motifs": rng.choice([100000, 100000, 100000, 2, 3, 4]), "strategy": st, "ops": prefix + strat_ops(rng, st), "check": False,
             "judge_leaves_after": ["bfs", "dfs", "min", "aseeds", "blockx", "scc", "skiprem"]}
 
 
